@@ -482,6 +482,8 @@ func (idx *MergeSetIndex) putIndexSearch(is *indexSearch) {
 	is.mp.Reset()
 	is.vrp.Reset()
 	is.idx = nil
+	// the pool serves every index of the process: the deleted ids of this index must not reach the next search
+	is.deleted = nil
 	is.tfs = is.tfs[:0]
 	indexSearchPool.Put(is)
 }
